@@ -359,6 +359,10 @@ def escape_decision_table(ctx, esc, pname, triggers, anywhere):
 
 
 def run(ctx):
+    from ..lints import dtype_family_tests
+    # how a column is written (text / number formatting) is decided by its dtype family: all widths of it
+    dtype_family_tests(ctx, CIF, "R1.dtype-family-test", 3)
+    dtype_family_tests(ctx, BCIF, "R2.dtype-family-test", 2)
     s = ctx.src(CIF)
     # ---------------- R1a line-start triggers vs _escape -----------------
     triggers = {}
@@ -385,6 +389,26 @@ def run(ctx):
         if isinstance(n, ast.Constant) and n.value in ("'", '"'):
             anywhere.add(n.value)
     ctx.floor("anywhere-triggers", len(anywhere), 5)
+    # a quoted token ends at the quote character that opened it - the other quote character is ordinary text inside it
+    # (_escape wraps a value containing ' in " and the other way round)
+    qbranches = [st for st in walk_local(split) if isinstance(st, ast.If) and isinstance(st.test, ast.Call)
+                 and isinstance(st.test.func, ast.Attribute) and st.test.func.attr == "startswith" and st.test.args
+                 and {c.value for c in ast.walk(st.test.args[0]) if isinstance(c, ast.Constant)} == {"'", '"'}]
+    ctx.need(len(qbranches) == 1, "the branch of _split_one_line that handles a token starting with a quote")
+    qb = qbranches[0]
+    word = qb.test.func.value
+    opener = [st.targets[0].id for st in qb.body if isinstance(st, ast.Assign) and isinstance(st.targets[0], ast.Name)
+              and isinstance(st.value, ast.Subscript) and ast.dump(st.value.value) == ast.dump(word)
+              and isinstance(st.value.slice, ast.Constant) and st.value.slice.value == 0]
+    ctx.need(len(opener) == 1, "the opening quote character is taken from the first character of the token")
+    closers = [c for st in qb.body for c in ast.walk(st) if isinstance(c, ast.Call) and isinstance(c.func, ast.Attribute)
+               and c.func.attr in ("endswith", "partition", "split", "rpartition", "find", "index", "rfind") and c.args]
+    ctx.floor("closing-quote-tests", len(closers), 2)
+    for c in closers:
+        ctx.ob("R1.closing-quote-is-opening-quote", CIF, "_split_one_line", ast.unparse(c)[:60],
+               isinstance(c.args[0], ast.Name) and c.args[0].id == opener[0] and len(c.args) == 1,
+               f"a quoted token must be closed by the character that opened it (`{opener[0]}`), the other quote character may occur inside "
+               "(5\" end, O5' atom)", c.lineno)
     escape_decision_table(ctx, esc, pname, triggers, anywhere)
     # mask tokens: written by as_array/as_item, inferred by CIFColumn.__init__
     col_init = s.func("CIFColumn.__init__")
@@ -688,6 +712,10 @@ def run(ctx):
 
 
 MUTANTS = [
+    Mutant("token-closed-by-any-quote", CIF, "                if word.endswith(separator) and len(word) > 1:\n",
+           "                if word.endswith((\"'\", '\"')) and len(word) > 1:\n", "R1.closing-quote-is-opening-quote"),
+    Mutant("token-split-on-single-quote", CIF, "                word, _, line = stripped_line[1:].partition(separator)\n",
+           "                word, _, line = stripped_line[1:].partition(\"'\")\n", "R1.closing-quote-is-opening-quote"),
     Mutant("row-count-reset-conditional", BCIF, "        # The cached row count may become invalid by the new column\n        self._row_count = None\n        super().__setitem__(key, element)", "            self._row_count = None\n        super().__setitem__(key, element)", "R4.row-count-invalidated"),
     Mutant("escape-hash-dropped", CIF,
            'elif value[0] in ("_", "#", ";"):', 'elif value[0] in ("_", ";"):',
